@@ -24,6 +24,7 @@ import (
 	"mellium.im/xmpp/form"
 	"mellium.im/xmpp/forward"
 	"mellium.im/xmpp/history"
+	"mellium.im/xmpp/jid"
 	"mellium.im/xmpp/muc"
 	"mellium.im/xmpp/oob"
 	"mellium.im/xmpp/paging"
@@ -383,6 +384,64 @@ func init() {
 			if b := o.encBytes("wrapbytes", func() ([]byte, error) { return tokensToBytes(toks) }); b != nil {
 				unwrap("wrapbytes/unwrap", func() xml.TokenReader { return xml.NewDecoder(bytes.NewReader(b)) })
 			}
+		}
+	}
+	// forward.Wrap(message, body, received, stanza): the package level constructor.  The result is a
+	// message with a body and a <forwarded/> child; decoded view: the body, the delay read by
+	// forward.Unwrap from the <forwarded/> child, the forwarded payload.
+	adapters["forward.wrap"] = func(v Rec, o *Obs) {
+		msg := stanza.Message{To: J("J_fullx"), Type: stanza.ChatMessage}
+		toks := o.encTokens("wrap", func() xml.TokenReader {
+			return forward.Wrap(msg, S(v["body"]), T(v["time"]), payloadReader(str(v["pl"])))
+		})
+		if toks == nil {
+			return
+		}
+		unwrap := func(p string, r func() xml.TokenReader) {
+			o.dec(p, "norm", func() (Rec, error) {
+				all, err := readTokens(r())
+				if err != nil {
+					return nil, err
+				}
+				in, err := inner(all) // the children of <message/>
+				if err != nil {
+					return nil, err
+				}
+				kids := children(append(append([]xml.Token{xml.StartElement{Name: xml.Name{Local: "m"}}}, in...), xml.EndElement{Name: xml.Name{Local: "m"}}))
+				if len(kids) != 2 {
+					return nil, fmt.Errorf("message has %d children, want body and forwarded", len(kids))
+				}
+				seg := func(k [2]int) []xml.Token { return in[k[0]-1 : k[1]-1] }
+				body := seg(kids[0])
+				if s, ok := body[0].(xml.StartElement); !ok || s.Name.Local != "body" {
+					return nil, fmt.Errorf("first child of the message is %v", body[0])
+				}
+				text := ""
+				for _, t := range body[1 : len(body)-1] {
+					c, ok := t.(xml.CharData)
+					if !ok {
+						return nil, fmt.Errorf("body holds a %T", t)
+					}
+					text += string(c)
+				}
+				var d delay.Delay
+				rest, err := forward.Unwrap(&d, replay(seg(kids[1])))
+				if err != nil {
+					return nil, err
+				}
+				pl, err := readTokens(rest)
+				if err != nil {
+					return nil, err
+				}
+				if !d.From.Equal(jid.JID{}) || d.Reason != "" {
+					return nil, fmt.Errorf("forward.Wrap wrote a delay with from %q reason %q", d.From, d.Reason)
+				}
+				return Rec{"body": SN(text), "time": TN(d.Time), "pl": payloadName(pl)}, nil
+			})
+		}
+		unwrap("wrap/unwrap", func() xml.TokenReader { return replay(toks) })
+		if b := o.encBytes("wrapbytes", func() ([]byte, error) { return tokensToBytes(toks) }); b != nil {
+			unwrap("wrapbytes/unwrap", func() xml.TokenReader { return xml.NewDecoder(bytes.NewReader(b)) })
 		}
 	}
 	adapters["carbons"] = func(v Rec, o *Obs) {
